@@ -15,7 +15,7 @@ import (
 var consHolders = []string{"local", "call", "field", "mapval", "sliceel", "closure", "generic", "method", "iface", "param", "ptrfield"}
 var consLoops = []string{"rangeDef", "rangeAsg", "pull", "pullThenRange", "rangeThenPull", "nestedRange", "nestedIter", "zip"}
 var consCtls = []string{"none", "brk", "cont", "ret"}
-var consBodies = []string{"log", "redecl", "redecl2", "redeclcap", "redecl2cap", "redecl2ptr"}
+var consBodies = []string{"log", "redecl", "redecl2", "redeclcap", "redecl2cap", "redecl2ptr", "reassign"}
 var consWraps = []string{"plain", "ingen", "inclosure"}
 
 var consBase = []string{"local", "rangeDef", "none", "log", "plain"}
@@ -213,6 +213,12 @@ func (p consProg) text(id string) string {
 			w("c.X(13, get())")
 			w("set(5)")
 			w("c.X(14, get())")
+		case "reassign": // the place the range expression denotes is changed while the loop runs
+			if G == "" {
+				w("c.E(15)")
+			} else {
+				w("%s = Src2(c, 2)", G)
+			}
 		case "redecl2ptr":
 			w("p := &%s", v)
 			w("%s, w2 := %s+1000, 1", v, v)
